@@ -80,6 +80,10 @@ type issuedToken struct {
 	reqText   string
 	granted   nscope
 	issuedAt  time.Time
+	revoked   bool // the registry has answered 401 to this token and will go on doing so
+	revokedIn int  // ... since this caller request
+	revokedSeq int64 // ... at this point of the simulation
+	refused   bool // the registry has answered 401 to a request carrying this token (for whatever reason)
 	lifetime  time.Duration // as the client must assume it (60 s when absent)
 	callID    int
 }
@@ -124,6 +128,7 @@ type regHost struct {
 	redirectTo   string // where a redirecting token server points
 	challengeMut string // "" | superset | reordered | duplicate
 	spurious401  int    // answer 401 to this many otherwise valid bearer requests
+	revokeRate   int    // > 0: each valid bearer request revokes its token for good with probability 1/revokeRate
 	// bearerDeny: what the 401 to a request that carried a bearer token looks like
 	// ("" = the usual challenge, "none" = no Www-Authenticate at all, "unknown" =
 	// only schemes the client does not speak, "malformed")
@@ -330,7 +335,30 @@ func (w *authWorld) serveRegistry(h *regHost, rw http.ResponseWriter, req *http.
 			return
 		}
 		it := w.issued[tok]
+		if it != nil {
+			defer func() {
+				if o != nil && o.status == 401 {
+					it.refused = true
+				}
+			}()
+		}
 		if it == nil || it.host != h.name || !w.now().Before(it.issuedAt.Add(it.lifetime)) || !it.granted.contains(demand) {
+			deny()
+			return
+		}
+		if it.revoked {
+			deny()
+			return
+		}
+		if h.revokeRate > 0 && w.c.Bool("registry.revokes?", 1, h.revokeRate) {
+			it.revoked = true
+			if o != nil {
+				it.revokedIn = o.callID
+			}
+			if w.env.Sched != nil {
+				it.revokedSeq = w.env.Sched.Seq()
+			}
+			w.env.Fault("registry-revokes-token")
 			deny()
 			return
 		}
